@@ -217,7 +217,24 @@ fn run_float<T: Flt>(src: &mut Src, obs: &mut Obs) -> Result<(), Fail> {
         return Ok(());
     }
     let arr = Array1::from_vec(xt.clone());
-    let v = arr.view();
+    // the axis as a contiguous array, as a reversed-stride view (memory holds it backwards) or as every second element
+    let rev_store = Array1::from_vec(xt.iter().rev().cloned().collect::<Vec<T>>());
+    let mut st = vec![T::of(-1e30); 2 * n];
+    for (i, k) in xt.iter().enumerate() {
+        st[2 * i] = *k;
+    }
+    let str_store = Array1::from_vec(st);
+    let v = match src.below(4) {
+        0 => {
+            obs.class("axis11:reversed-stride-view");
+            rev_store.slice(ndarray::s![..;-1])
+        }
+        1 => {
+            obs.class("axis11:strided-view");
+            str_store.slice(ndarray::s![..;2])
+        }
+        _ => arr.view(),
+    };
     // via the interpolators
     let via = src.below(8);
     let i1 = if via == 0 {
